@@ -225,3 +225,42 @@ theorem generic_src (id : Ident) (fee : Nat) (fs ca dep ex : Bytes) (h : Generic
   simp only [e7, e8, Nat.add_sub_cancel_left, take_app rfl, beToNat_pad32]
 
 end Sygma.C01
+
+namespace Sygma.C01
+
+/-- ERC20 deposit data followed by a tail too short for an optional message (≤ 32 bytes): the tail is ignored -/
+theorem erc20_src_tail (id : Ident) (d0 : Fungible) (t resp : Bytes) (h : ShortTailWF d0 t) (hr : RespWF resp) :
+    erc20Deposit id (Src.fungible d0 ++ t) resp =
+      .ok ⟨id, .fungible, [.bytes (amountWord d0.amount resp), .bytes d0.recipient], none⟩ := by
+  obtain ⟨ha, hrl, ho, _, ht32, hmin⟩ := h
+  have h2 : d0.recipient.length < 2 ^ 256 := by omega
+  have hA : (pad32 d0.amount).length = 32 := pad32_length _ ha
+  have hN : (pad32 d0.recipient.length).length = 32 := pad32_length _ h2
+  generalize hcd : Src.fungible d0 ++ t = cd
+  have hshape : cd = pad32 d0.amount ++ (pad32 d0.recipient.length ++ (d0.recipient ++ t)) := by
+    rw [← hcd]; simp [Src.fungible, ho, Src.optTail]
+  have hL : cd.length = 64 + d0.recipient.length + t.length := by
+    rw [hshape]; simp [hA, hN]; omega
+  have e1 : cd.take 32 = pad32 d0.amount := by rw [hshape]; exact take_app hA
+  have e2 : cd.drop 32 = pad32 d0.recipient.length ++ (d0.recipient ++ t) := by rw [hshape]; exact drop_app hA
+  have e3 : cd.drop 64 = d0.recipient ++ t := by
+    have : cd.drop 64 = (cd.drop 32).drop 32 := by simp
+    rw [this, e2]; exact drop_app hN
+  have hamt : (if 0 < resp.length then resp.take 32 else cd.take 32) = amountWord d0.amount resp := by
+    unfold amountWord
+    by_cases hre : resp = []
+    · simp [hre, e1]
+    · have : 0 < resp.length := List.length_pos_iff.2 hre
+      simp [hre, this]
+  have hresp : ¬ (0 < resp.length ∧ resp.length < 32) := by
+    rcases hr with h | h
+    · simp [h]
+    · omega
+  unfold erc20Deposit
+  rw [if_neg (by omega), if_neg hresp]
+  simp only [hamt, e2, take_app hN, int64Len_pad32 _ hrl]
+  rw [slice_eq (by omega) (by omega)]
+  simp only [e3, Nat.add_sub_cancel_left, take_app rfl]
+  rw [if_neg (by omega)]
+
+end Sygma.C01
